@@ -261,6 +261,18 @@ func vEncVariants(c *vCtx, level int, tag string) {
 		c.Dec.Decrypt(ct, out)
 		vAssertNoiseFree(rQ, out.Value, pt.Value, params.NTTFlag(), 30, name+"-ciphertext-decrypts-to-the-plaintext-up-to-noise")
 	}
+	// encryption into a degree-2 target that held other data before: a fresh encryption on the first two components
+	for ei, enc := range []*Encryptor{c.EncSk, c.EncPk} {
+		name := tag + []string{"-sk", "-pk"}[ei] + "-degree-2-target"
+		pt := NewPlaintext(params, level)
+		vFillAtoms(rQ, pt.Value, "m", vMessage)
+		ct := NewCiphertext(params, 2, level)
+		vFillAtoms(rQ, ct.Value[2], "junk", vUniform)
+		vAssert(enc.Encrypt(pt, ct) == nil, name+"-Encrypt-no-error")
+		out := NewPlaintext(params, level)
+		c.Dec.Decrypt(ct, out)
+		vAssertNoiseFree(rQ, out.Value, pt.Value, params.NTTFlag(), 30, name+"-Dec-of-Enc-is-plaintext-up-to-noise")
+	}
 	if level < params.MaxLevel() {
 		for ei, enc := range []*Encryptor{c.EncSk, c.EncPk} {
 			name := tag + []string{"-sk", "-pk"}[ei] + "-ciphertext-allocated-above-the-plaintext-level"
